@@ -520,7 +520,6 @@ def rule_glob1(ctx: Ctx) -> RuleResult:
                 if _is_mutable_value(v):
                     inv.append(f"{m.modname}.{c.qualname}.{name}")
     rr.notes.append("mutable module/class-level objects: " + ", ".join(sorted(inv)))
-    controls = 0
     for f in sorted(prog.all_funcs(), key=lambda x: x.key):
         in_cone = f in cone
         for w in ef.events(f):
@@ -592,25 +591,25 @@ def rule_glob1(ctx: Ctx) -> RuleResult:
             rr.instances += 1
             st = "library code keeps no state beyond the objects passed to it"
             text = w.path + (f" -> {w.via}" if w.via else "")
-            by_design = (not in_cone) and root.startswith("global:") and root.endswith(".registry") and \
-                w.kind in ("selfmut-call", "parammut-call")
             if not in_cone and f not in ctx.cli_cone:
                 rr.ob(f.relpath, f.qualname, text, st, ALLOWED,
                       bad + " - but the function is reachable neither from a library entry point nor from main "
                             "(unused helper)", w.line)
-            elif by_design:
-                controls += 1
-                rr.ob(f.relpath, f.qualname, text, st, ALLOWED,
-                      bad + " - CLI-only function (not reachable from any library entry point): the command line "
-                            "configures the default string-type registry for its own process by design", w.line)
             else:
                 rr.ob(f.relpath, f.qualname, text, st, VIOLATED,
                       bad + ("; reachable from the library entry points, so one generation can influence the next"
-                             if in_cone else "; state shared between Cli objects / runs in one process"), w.line)
-    # import-time decorator applications (registry.add()) are module initialisation, executed once per process
-    if controls < 2:
-        raise AnalysisError(f"GLOB-1 positive control failed: expected the CLI's writes to the default string-type "
-                            f"registry (>=2) to be detected, found {controls}")
+                             if in_cone else "; the change outlives this command line: a later or concurrent run in the same "
+                                             "process (another Cli object, a library pipeline using the defaults) sees it"),
+                      w.line)
+    # positive control: the summaries that make a call like `register_datetime_classes()` (default argument = the
+    # module-level registry) or `registry.remove_by_name(..)` visible as a write must be in place
+    rdc = [f for f in prog.all_funcs() if f.name == "register_datetime_classes"]
+    rbn = [f for f in prog.all_funcs() if f.qualname == "StringSerializableRegistry.remove_by_name"]
+    if not rdc or not rbn:
+        raise AnalysisError("GLOB-1 positive control: register_datetime_classes / remove_by_name vanished")
+    if not ef.mutated_params(rdc[0]) or not ef.self_mutating(rbn[0]):
+        raise AnalysisError("GLOB-1 positive control failed: the effect summaries no longer see that register_datetime_classes "
+                            "mutates the registry it is given / that remove_by_name mutates its registry")
     # class-level mutable attributes must flow only into copies on library paths
     for c in prog.all_classes():
         for name, v in c.assigns.items():
@@ -965,4 +964,81 @@ def rule_thread1(ctx: Ctx) -> RuleResult:
           f"none of {sorted(MAIN_THREAD_ONLY)} is called (positive control matched 2/2)", 1)
     if n_funcs < 50:
         raise AnalysisError(f"THREAD-1: only {n_funcs} functions in scope")
+    return rr
+
+
+# ---------------------------------------------------------------------------------------------------------------
+# third-party objects that keep per-use state: one instance must not serve two threads at once
+STATEFUL_EXTERNAL = {
+    "ruamel.yaml.YAML": "a YAML() instance owns reader, scanner, parser and composer state for the document being loaded",
+    "yaml.YAML": "a YAML() instance owns reader, scanner, parser and composer state for the document being loaded",
+    "configparser.ConfigParser": "read_file() fills the parser's sections",
+    "configparser.RawConfigParser": "read_file() fills the parser's sections",
+    "random.Random": "generator state",
+    "io.StringIO": "stream position", "io.BytesIO": "stream position",
+    "itertools.count": "iterator state", "itertools.cycle": "iterator state",
+    "hashlib.md5": "digest state", "hashlib.sha1": "digest state", "hashlib.sha256": "digest state",
+    "sqlite3.connect": "connection state", "open": "file position",
+}
+
+
+def _import_aliases(tree: ast.AST) -> Dict[str, str]:
+    al: Dict[str, str] = {}
+    for n in ast.walk(tree):
+        if isinstance(n, ast.Import):
+            for a in n.names:
+                al[a.asname or a.name.split(".")[0]] = a.name if a.asname else a.name.split(".")[0]
+        elif isinstance(n, ast.ImportFrom) and n.module and n.level == 0:
+            for a in n.names:
+                al[a.asname or a.name] = f"{n.module}.{a.name}"
+    return al
+
+
+def _stateful_module_objects(tree: ast.AST) -> List[Tuple[str, ast.AST, str]]:
+    """(name, node, dotted constructor) for names bound at module level to (a bound method of) a stateful third-party object."""
+    al = _import_aliases(tree)
+    out = []
+    fn_nodes = {id(x) for f in ast.walk(tree) if isinstance(f, (ast.FunctionDef, ast.AsyncFunctionDef, ast.Lambda))
+                for x in ast.walk(f) if x is not f}
+    for n in ast.walk(tree):
+        if isinstance(n, (ast.Assign, ast.AnnAssign)) and id(n) not in fn_nodes and getattr(n, "value", None) is not None:
+            for c in ast.walk(n.value):
+                if id(c) in fn_nodes or not isinstance(c, ast.Call):
+                    continue
+                fn = norm(c.func)
+                head = fn.split(".")[0]
+                dotted = (al[head] + fn[len(head):]) if head in al else fn
+                if dotted in STATEFUL_EXTERNAL:
+                    for t in (n.targets if isinstance(n, ast.Assign) else [n.target]):
+                        if isinstance(t, ast.Name):
+                            out.append((t.id, n, dotted))
+    return out
+
+
+def rule_shared1(ctx: Ctx) -> RuleResult:
+    rr = RuleResult("SHARED-1", "no stateful third-party object created at import time is used by concurrent runs", floor=1)
+    ctl = ast.parse("import ruamel.yaml as yaml\nload = yaml.YAML(typ='safe').load\nimport re\nP = re.compile('x')\n")
+    got = _stateful_module_objects(ctl)
+    if [g[0] for g in got] != ["load"]:
+        raise AnalysisError("SHARED-1: positive control failed")
+    prog = ctx.prog
+    scope = set(ctx.lib_cone) | set(ctx.cli_cone)
+    st = ("objects built once at import are shared by every thread; a parser / stream / iterator object among them is "
+          "used by one run at a time only")
+    n_mod = 0
+    for m in prog.pkg_modules():
+        n_mod += 1
+        for name, node, dotted in _stateful_module_objects(m.tree):
+            users = [f for f in m.all_funcs if f in scope and any(
+                isinstance(x, ast.Name) and x.id == name and isinstance(x.ctx, ast.Load) for x in ast.walk(f.node))]
+            rr.instances += 1
+            if users:
+                rr.ob(m.relpath, users[0].qualname, norm(node)[:80], st, VIOLATED,
+                      f"`{name}` is bound at import to an instance of {dotted} ({STATEFUL_EXTERNAL[dotted]}) and used in "
+                      f"{', '.join(u.qualname for u in users[:3])}: two threads loading at the same time corrupt each other's "
+                      f"parse", node.lineno)
+            else:
+                rr.ob(m.relpath, "<module>", norm(node)[:80], st, DISCHARGED, "not used on a generation / CLI path", node.lineno)
+    rr.instances += 1
+    rr.ob("json_to_models", "<package>", f"{n_mod} modules", st, DISCHARGED, "inventory complete (positive control matched)", 1)
     return rr
